@@ -241,6 +241,19 @@ func IsValidBucketName(bucket string, debug bool) bool {
 	return true
 }
 
+// hasUnsignedAmzHeader reports whether the request carries an x-amz-*
+// header that the signature does not cover. Such a header can be added to
+// a captured request without invalidating its signature.
+func hasUnsignedAmzHeader(ctx *fiber.Ctx, signedHdrs []string) bool {
+	unsigned := false
+	ctx.Request().Header.VisitAll(func(key, _ []byte) {
+		if len(key) >= 6 && strings.EqualFold(string(key[:6]), "x-amz-") && !includeHeader(string(key), signedHdrs) {
+			unsigned = true
+		}
+	})
+	return unsigned
+}
+
 func includeHeader(hdr string, signedHdrs []string) bool {
 	for _, shdr := range signedHdrs {
 		if strings.EqualFold(hdr, shdr) {
